@@ -275,7 +275,7 @@ func (sp *Spec) execOnce(t *testing.T, s Schedule) *Outcome {
 	// arbitrary points) unless memory gets tight.
 	// Collections happen between runs only, at the harness' request (memory limit aside): a cycle running
 	// into a run scans and shrinks stacks at arbitrary points.
-	debug.SetMemoryLimit(1536 << 20)
+	debug.SetMemoryLimit(int64(envInt("VERIF_MEMLIMIT_MB", 1536)) << 20)
 	debug.SetGCPercent(-1)
 	if sp.nexec == 0 {
 		runtime.GC() // completes whatever cycle process start-up began
